@@ -9,19 +9,20 @@ import json, os, shutil, subprocess, sys, time
 sd, ab, prop = sys.argv[1], sys.argv[2], sys.argv[3]
 checks = sys.argv[4:] or [prop]
 tier = os.environ.get('SEED_TIER', 'quick')
-WT = '/tmp/wt-seed-%s-%s' % (prop.lower(), ab.lower())
+WT = '/tmp/wt-seed-%s-%s' % (prop.lower(), ab.lower() if ab != '-' else os.path.basename(sd.rstrip('/')).lower())
 sh = lambda c, **k: subprocess.run(c, shell=True, stdout=subprocess.PIPE, stderr=subprocess.STDOUT, text=True, **k)
 sh('git -C /repo worktree remove --force %s' % WT)
 r = sh('git -C /repo worktree add -q %s HEAD' % WT); assert r.returncode == 0, r.stdout
 try:
-    r = sh('git -C %s apply %s/%s.diff' % (WT, sd, ab))
+    patch = '%s/%s.diff' % (sd, ab) if ab != '-' else '%s/patch.diff' % sd
+    r = sh('git -C %s apply %s' % (WT, patch))
     meta = dict(property=prop, change=ab, applied=r.returncode == 0, repo_head=sh('git -C /repo rev-parse --short HEAD').stdout.strip())
     if r.returncode != 0:
         print('PATCH DOES NOT APPLY', r.stdout); sys.exit(3)
     suite = sh('/verif/tools/suite.py %s' % WT)
     meta['suite'] = suite.stdout.strip().splitlines()[0]
     meta['suite_ok'] = suite.returncode == 0
-    demo = '%s/demo_%s.py' % (sd, ab)
+    demo = '%s/demo_%s.py' % (sd, ab) if ab != '-' else '%s/demo.py' % sd
     d0 = sh('cd /tmp && PYTHONPATH=/repo /venv/bin/python -B %s' % demo)
     d1 = sh('cd /tmp && PYTHONPATH=%s /venv/bin/python -B %s' % (WT, demo))
     meta['demo_clean_exit'] = d0.returncode
@@ -38,20 +39,21 @@ try:
         if rr.returncode == 2:
             meta['checks'][c]['tail'] = rr.stdout[-600:]
     # restore evidence of the real tree for the checks we disturbed
-    out = '/verif/seeded/%s-%s' % (prop, ab)
+    out = '/verif/seeded/%s-%s' % (prop, ab) if ab != '-' else sd
     os.makedirs(out, exist_ok=True)
-    shutil.copy('%s/%s.diff' % (sd, ab), out + '/patch.diff')
-    shutil.copy(demo, out + '/demo.py')
-    notes = '%s/notes.md' % sd
-    if os.path.exists(notes):
-        shutil.copy(notes, out + '/notes.md')
+    if ab != '-':
+        shutil.copy(patch, out + '/patch.diff')
+        shutil.copy(demo, out + '/demo.py')
+        notes = '%s/notes.md' % sd
+        if os.path.exists(notes):
+            shutil.copy(notes, out + '/notes.md')
     meta['what_i_ran'] = ['tools/suite.py <scratch>', 'demo.py with PYTHONPATH=/repo and PYTHONPATH=<scratch>',
                           'VERIF_REPO=<scratch> ./vcheck.py run <check> --tier %s' % tier]
     old = {}
     if os.path.exists(out + '/meta.json'):
         old = json.load(open(out + '/meta.json'))
         oc = old.get('checks', {}); oc.update(meta['checks']); meta['checks'] = oc
-        for k in ('needs',):
+        for k in ('needs', 'breaks_property'):
             if k in old: meta[k] = old[k]
     json.dump(meta, open(out + '/meta.json', 'w'), indent=1)
     print(json.dumps(meta, indent=1))
